@@ -693,3 +693,20 @@ Print Assumptions C01_src_entry_copy.
 Print Assumptions C01_src_entry_deepcopy.
 Print Assumptions C01_src_entry_pickle.
 Print Assumptions C01_src_mutation_revalidates.
+
+(* from_other_class given an instance and an ignore list; without one it is the entry EFromOther (from_other_ig_nil) *)
+Theorem C01_src_entry_from_other_ignore :
+  forall (re_match : N -> pystr -> bool) (e : env) (cd ct : classdef) (a : attrs) (over : kwargs) (ig : list pystr),
+    find_class e (c_name cd) = Some cd -> find_class e (c_name ct) = Some ct ->
+    names_ok a = true -> vals_defined a = true -> defaults_defined cd = true -> fields_ok ct = true ->
+    has_dup (map fst over) = false -> vals_defined over = true ->
+    entry_view (Structure__from_other_class (entry_heap e cd ct) (entry_world re_match e cd ct) (ref (cobj (c_name ct)))
+                  (ref (s2p "self")) (ig_val ig) (kw_dict over) (inst_state a)) =
+    construct re_match e ct (from_other_kwargs_ig cd ct a over ig).
+Proof. exact generated_from_other_ignore. Qed.
+
+Theorem C01_from_other_kwargs_ig_nil : forall cd ct a over, from_other_kwargs_ig cd ct a over [] = from_other_kwargs cd ct a over.
+Proof. exact from_other_ig_nil. Qed.
+
+Print Assumptions C01_src_entry_from_other_ignore.
+Print Assumptions C01_from_other_kwargs_ig_nil.
